@@ -105,6 +105,15 @@ class Ramp(F.WindowFunction):
         return 1.0 + np.arange(max(width, 0), dtype=np.float64) / 4.0
 
 
+class ThirdsRamp(F.WindowFunction):
+    """Like Ramp, with taps no binary floating-point type narrower than double holds exactly."""
+
+    aliases = set()
+
+    def get_impulse_response(self, width):
+        return (1.0 + np.arange(max(width, 0), dtype=np.float64)) / 3.0
+
+
 def unregister_stubs():
     """Stub classes have no aliases, so they never interfere with alias lookups."""
     return None
